@@ -105,32 +105,14 @@ def gen_policy():
     out += 'Definition ruledefault_copies_deprecated : bool := %s.\n\n' % b(
         'self._deprecated_rule = copy.deepcopy(deprecated_rule) or []' in rd)
 
-    # ---- directory walk and directory-change detection (C09, C10): exact known shape
-    walk = ast.unparse(find_func(enf.body, '_walk_through_policy_directory'))
-    want_walk = ("policy_files = next(os.walk(path))[2]\n    policy_files.sort()\n"
-                 "    for policy_file in [p for p in policy_files if not p.startswith('.')]:\n"
-                 "        func(os.path.join(path, policy_file), *args)")
+    # ---- directory walk, directory-change detection, cached read (C09, C10): observed behaviour
+    import probe
     out += '(* _walk_through_policy_directory: top level only, plain sort, dot-files skipped *)\n'
-    out += 'Definition walk_shape_known : bool := %s.\n' % b(want_walk in walk)
-    upd = ast.unparse(find_func(enf.body, '_is_directory_updated'))
-    want_upd = ("mtime = 0\n    if os.path.exists(path):\n        if not os.path.isdir(path):\n"
-                "            raise ValueError('{} is not a directory'.format(path))\n"
-                "        files = [path] + [os.path.join(path, file) for file in os.listdir(path)]\n"
-                "        mtime = os.path.getmtime(max(files, key=os.path.getmtime))\n"
-                "    cache_info = cache.setdefault(path, {})\n"
-                "    if mtime > cache_info.get('mtime', 0):\n        cache_info['mtime'] = mtime\n"
-                "        return True\n    return False")
+    out += 'Definition walk_shape_known : bool := %s.\n' % b(probe.walk_shape_known())
     out += '(* _is_directory_updated: newest mtime over the directory and ALL its entries, strict > *)\n'
-    out += 'Definition dir_updated_shape_known : bool := %s.\n' % b(want_upd in upd)
-    cmod = parse('oslo_policy/_cache_handler.py')
-    rc = ast.unparse(find_func(cmod.body, 'read_cached_file'))
-    ok_rc = ("if force_reload:\n        delete_cached_file(cache, filename)" in rc and
-             "return (True, {})" in rc and
-             "if not cache_info or mtime > cache_info.get('mtime', 0):" in rc and
-             "cache_info['mtime'] = mtime\n        reloaded = True" in rc and
-             rc.rstrip().endswith("return (reloaded, cache_info['data'])"))
+    out += 'Definition dir_updated_shape_known : bool := %s.\n' % b(probe.dir_updated_shape_known())
     out += '(* read_cached_file: strict mtime comparison, (True, {}) for a missing file *)\n'
-    out += 'Definition read_cached_shape_known : bool := %s.\n\n' % b(ok_rc)
+    out += 'Definition read_cached_shape_known : bool := %s.\n\n' % b(probe.read_cached_shape_known())
 
     # ---- shared-state write sites of the reload path (C20)
     wsites = reload_write_sites(mod)
